@@ -116,6 +116,32 @@ Fixpoint ops_ok (b : cbuf) (ops : list bop) : bool :=
   | cons o t => bop_ok b o && ops_ok (capply b o) t
   end.
 
+(* ------------------------------------------------------------------ newlines in the real bytes *)
+(* input.iter().position(|b| b == '\n'), counting from [i] *)
+Fixpoint position_nl (d : list Z) (i : Z) : option Z :=
+  match d with
+  | nil => None
+  | cons c t => if c =? 10 then Some i else position_nl t (i + 1)
+  end.
+
+(* parse_more: `input = match input.iter().rposition(|&x| x == b'\n') { Some(idx) => &input[..idx + 1], None => return Ok(0) }`
+   — the prefix up to and including the last '\n' (empty when there is none) *)
+Fixpoint trim_nl (d : list Z) : list Z :=
+  match d with
+  | nil => nil
+  | cons c t => match trim_nl t with
+                | nil => if c =? 10 then cons c nil else nil
+                | r => cons c r
+                end
+  end.
+
+(* the complete lines that fit into [budget] bytes (the lines Model.pm walks over) *)
+Fixpoint fit {L : Type} (llen : L -> Z) (budget : Z) (ls : list L) : list L :=
+  match ls with
+  | nil => nil
+  | cons l t => if llen l <=? budget then cons l (fit llen (budget - llen l) t) else nil
+  end.
+
 (* ------------------------------------------------------------------ the parse loop on real bytes *)
 Section BDriver.
   Variable L : Type.
@@ -138,13 +164,6 @@ Section BDriver.
   | BNext (x : bst)
   | BDone (r : result PS) (x : bst)
   | BPanic (tag : Z).
-
-  (* input.iter().position(|b| b == '\n') on the real bytes of data() *)
-  Fixpoint position_nl (d : list Z) (i : Z) : option Z :=
-    match d with
-    | nil => None
-    | cons c t => if c =? 10 then Some i else position_nl t (i + 1)
-    end.
 
   (* the recovery block: `callback(&input[..amount]); buf.consume(amount);` *)
   Definition b_recovery (x : bst) : bst :=
